@@ -18,7 +18,7 @@ ParamShapes == {"absent", "null", "emptyarray", "object", "string", "number", "a
 Firsts == {"null", "bool", "key-archived", "key-absent", "garbage-string", "empty-string", "long-string", "int-archived", "int-absent",
            "negative", "fraction", "huge", "array", "object"}
 \* second element (options)
-Seconds == {"none", "null", "number", "string", "array", "empty", "valid", "wrongtypes", "unknown-encoding", "bad-sigs", "huge-limit", "negative-limit"}
+Seconds == {"none", "null", "number", "string", "array", "empty", "valid", "wrongtypes", "unknown-encoding", "bad-sigs", "huge-limit", "negative-limit", "null-members", "null-encoding"}
 Ids == {"int", "string", "null", "object", "absent"}
 Epochs == {0, 1, 2}
 VARIABLES kind, http, path, body, method, pshape, first, second, id, epochs
